@@ -41,6 +41,10 @@ def as_found_models(wd):
     cfg = beh.CHAIN_CFG % (6, 3, 2, 30, 2, "FALSE", "ProbeConvergenceVacuous")
     r = C.model_check("ChainMC", cfg, os.path.join(wd, "af-chain-probe"), workers=4, xmx="4g", timeout=900)
     expect("ChainMC: the antecedent of InvConvergence is reachable (probe violated)", (not r["ok"]) and "ProbeConvergenceVacuous is violated" in r["out"])
+    cfg = beh.MATHDELIM_CFG % (5, 2, 24, 2, "FALSE", "FALSE", "InvLineFeedsKept")
+    r = C.model_check("MathDelimMC", cfg, os.path.join(wd, "af-mathdelim"), workers=4, xmx="4g", timeout=900)
+    expect("MathDelimMC[inline] exhibits the recorded defect G07 (InvLineFeedsKept violated)",
+           (not r["ok"]) and "InvLineFeedsKept is violated" in r["out"])
     for rf, rc, what in [("FALSE", "TRUE", "F03 format-all dot root"), ("TRUE", "FALSE", "F05 read failure not counted")]:
         cfg = ("SPECIFICATION Spec\nINVARIANTS TypeOK Contract\nCHECK_DEADLOCK FALSE\nCONSTANTS MaxPresent = 2\n MaxArgs = 1\n"
                " RootFixed = %s\n ReadFailCounted = %s\n DetWalk = TRUE\n" % (rf, rc))
